@@ -1006,6 +1006,30 @@ theorem C09_typed_refines [DecidableEq K] (c : Cfg R) (cd : KVCodec K V) (hk : K
     (tstep c cd s (.del k)).2 = .out (.deleted (tspec cd ops k).isSome) :=
   typed_refines c cd hk hv ops hc k kb hkb
 
+/-- **The root depends on the typed contents alone, and (injective `rootOf`) different typed contents give different
+roots** — for any round-tripping key / value serializers: two typed histories answer `Root()` identically iff their
+plain typed maps `K → Option V` are equal.  (The content-only direction needs no injectivity.) -/
+theorem C09_typed_root_eq_iff [DecidableEq K] (c : Cfg R) (cd : KVCodec K V) (hk : KeyRT cd) (hv : ValRT cd)
+    (ops₁ ops₂ : List (TyOp K V))
+    (h₁ : CleanFrom { c with dec := cd.dec } init (ops₁.map (encOp cd)))
+    (h₂ : CleanFrom { c with dec := cd.dec } init (ops₂.map (encOp cd))) :
+    ((∀ k, tspec cd ops₁ k = tspec cd ops₂ k) →
+      (tstep c cd (tfinal c cd init ops₁) .root).2 = (tstep c cd (tfinal c cd init ops₂) .root).2) ∧
+    (Function.Injective c.rootOf →
+      (tstep c cd (tfinal c cd init ops₁) .root).2 = (tstep c cd (tfinal c cd init ops₂) .root).2 →
+      ∀ k, tspec cd ops₁ k = tspec cd ops₂ k) := by
+  have e₁ := tfinal_eq c cd init ops₁
+  have e₂ := tfinal_eq c cd init ops₂
+  refine ⟨fun heq => ?_, fun hinj hroot => ?_⟩
+  · have := C09_root_content_only { c with dec := cd.dec } _ _ h₁ h₂ (stored_eq_of_typed_eq hk ops₁ ops₂ heq)
+    simp only [tstep, encOp, tout, e₁, e₂, this]
+  · have hr : (step { c with dec := cd.dec } (final { c with dec := cd.dec } init (ops₁.map (encOp cd))) .root).2
+        = (step { c with dec := cd.dec } (final { c with dec := cd.dec } init (ops₂.map (encOp cd))) .root).2 := by
+      simp only [tstep, encOp, tout, e₁, e₂] at hroot
+      injection hroot
+    exact typed_eq_of_stored_eq hk hv ops₁ ops₂
+      (C09_root_injective { c with dec := cd.dec } hinj _ _ h₁ h₂ hr)
+
 /-- **`Stream` on the typed surface** — raw key → `bytesToKey` → `keyToBytes` again → `tree.Get` → `bytesToValue` —
 is, for a round-tripping key serializer, the stream of the sequential model (`C09_stream`) decoded pair by pair: the
 same number of pairs, the same end; it never ends with a key error. -/
